@@ -16,8 +16,8 @@ AdvParams ==
   \cup { [what |-> "elfhuge", a |-> n, b |-> es] : n \in {<<1, 0, 0, 4>>, <<0, 0, 0, 4>>, <<103, 102, 102, 6>>, <<255, 255, 255, 255>>, <<0, 0, 0, 128>>, <<1, 0, 0, 0>>},
                                                   es \in {<<64, 0, 0, 0>>, <<40, 0, 0, 0>>, <<0, 0, 0, 4>>, <<255, 255, 255, 255>>} }
   \* string-table indices / entry sizes whose product leaves 32 bits, with no or one section (c: the count)
-  \cup { [what |-> "elfshndx", a |-> es, b |-> sh, c |-> n] : es \in {<<64, 0, 0, 0>>, <<0, 0, 1, 0>>, <<0, 0, 0, 1>>},
-                                                             sh \in {<<0, 0, 1, 0>>, <<0, 0, 0, 4>>, <<1, 0, 0, 4>>, <<255, 255, 255, 255>>}, n \in {0, 1} }
+  \cup { [what |-> "elfshndx", a |-> es, b |-> sh, c |-> n] : es \in {<<64, 0, 0, 0>>, <<0, 0, 1, 0>>, <<0, 0, 0, 1>>, <<0, 0, 0, 192>>, <<255, 255, 255, 255>>},
+                                                             sh \in {<<0, 0, 1, 0>>, <<0, 0, 0, 4>>, <<1, 0, 0, 4>>, <<0, 0, 0, 192>>, <<255, 255, 255, 255>>}, n \in {0, 1} }
   \cup { [what |-> "fb64k", a |-> U16Bytes(nc), b |-> U32Bytes(bl)] : nc \in {21845, 21846, 30000, 65535}, bl \in {65534, 65540, 65600} }
   \cup { [what |-> "hugesize", a |-> a, b |-> <<>>] : a \in {<<248, 255, 255, 255>>, <<0, 0, 0, 128>>, <<255, 255, 255, 127>>, <<0, 0, 0, 64>>, <<1, 0, 0, 64>>} }
 AdvTag(p) ==
